@@ -1,7 +1,10 @@
 package props
 
 import (
+	"context"
+	"errors"
 	"fmt"
+	"strings"
 	"sync"
 	"time"
 
@@ -63,4 +66,23 @@ func compressorByName(name string) gocql.Compressor {
 		return lz4.LZ4Compressor{}
 	}
 	return nil
+}
+
+// loadLike: errors that a starved machine produces on its own (a driver timeout expiring although the peer answered,
+// connection attempts abandoned for the same reason). Oracles about *what* was sent or decoded treat them as
+// inconclusive when nothing else is wrong, never as a finding.
+func loadLike(err error) bool {
+	if err == nil {
+		return false
+	}
+	if errors.Is(err, gocql.ErrTimeoutNoResponse) || errors.Is(err, gocql.ErrNoConnections) || errors.Is(err, gocql.ErrNoConnectionsStarted) || errors.Is(err, context.DeadlineExceeded) {
+		return true
+	}
+	s := err.Error()
+	for _, sig := range []string{"no response received from cassandra within timeout period", "no response to connection startup within timeout", "no connections were made when creating the session", "unable to connect to initial hosts", "i/o timeout", "deadline exceeded", "no hosts available", "no connections available"} {
+		if strings.Contains(s, sig) {
+			return true
+		}
+	}
+	return false
 }
